@@ -21,7 +21,7 @@ ASSUMPTIONS = ["coefficient functions and the SDE drift are evaluated through th
                "copula drivers in dimension 2 (finite and infinite variation); the Libor model with independent components is refused by the library (NotImplementedError: no copula density)",
                "df is explored on [0, last tenor]"]
 REQUIRED_COUNTERS = ["single_paths", "coupled_paths", "constant_closed_form", "diagonal_closed_form", "df_meshes", "epsilon_checks",
-                     "copula_driver_cases", "libor_copula_driver_cases"]
+                     "copula_driver_cases", "libor_copula_driver_cases", "rates_fixing_before_maturity"]
 MIN_NONTRIVIAL = {"quick": 40, "thorough": 500}
 THOROUGH_ROUNDS = 3      # the thorough tier runs the generators this many times (different seeds)
 SHARD_TIMEOUT = {"quick": 900, "thorough": 7200}
@@ -181,7 +181,12 @@ def _sde(case, R):
         else:
             m = int(rng.integers(2, 5))
             t0 = float(rng.uniform(T + 0.1, T + 2.0))
+            if rng.random() < 0.45:
+                t0 = float(T * rng.uniform(0.15, 0.8))      # some rates fix before the maturity: the coefficient a(t, x) depends on t
+                R.hit("rates_fixing_before_maturity")
             tenors = [t0 + 0.5 * k for k in range(m + 1)]
+            if rng.random() < 0.5:
+                tenors = np.array(tenors)                      # (the constructors take lists or arrays)
             rates = rng.uniform(0.01, 0.06, size=m)
             sigma = rng.uniform(0.2, 1.0, size=(m, d))
             if coef == "forward":
